@@ -15,7 +15,9 @@ mod c08;
 mod c16;
 mod c18;
 mod c19b;
+mod c02;
 mod recdesc;
+mod recdesc_c;
 mod sim;
 mod simdemo;
 mod simop;
@@ -23,6 +25,7 @@ mod c19;
 mod c13;
 mod c12;
 mod c07;
+mod c17;
 mod scen;
 mod wirefmt;
 mod util;
@@ -59,6 +62,9 @@ pub fn exec_line(line: &str) -> Option<String> {
     }
     if op == "backoff" {
         return c19b::exec(op, &mut t);
+    }
+    if op == "encode" || op == "escape" || op == "parse-escaped" {
+        return c02::exec(op, &mut t);
     }
     None
 }
@@ -97,6 +103,7 @@ fn main() {
                     "C01" => c01::generate(&mut rng, &tier, &mut emit),
                     "C10" => c11::generate_c10(&mut rng, &tier, &mut emit),
                     "C11" => c11::generate_c11(&mut rng, &tier, &mut emit),
+                    "C02" => c02::generate(&mut rng, &tier, &mut emit),
                     "C16" => c16::generate(&mut rng, &tier, &mut emit),
                     "C19" => {
                         c19b::generate(&mut rng, &tier, &mut emit);
@@ -107,6 +114,8 @@ fn main() {
                     "C07" => c07::generate_c07(&mut rng, &tier, &mut emit),
                     "C09" => c07::generate_c09(&mut rng, &tier, &mut emit),
                     "C06" => c07::generate_c06(&mut rng, &tier, &mut emit),
+                    "C17" => c17::generate_c17(&mut rng, &tier, &mut emit),
+                    "C20" => c17::generate_c20(&mut rng, &tier, &mut emit),
                     "C08" => c08::generate(&mut rng, &tier, &mut emit),
                     "C16" => c16::generate(&mut rng, &tier, &mut emit),
                     "C18" => c18::generate(&mut rng, &tier, &mut emit),
